@@ -443,6 +443,94 @@ def _task(t):
     return {"st": st, "states": states, "viols": viols}
 
 
+# ------------------------------------------------------------------------------------------------
+# exit paths of the block API's own bookkeeping: a block that ends with an error raised BY THE LIBRARY
+# (a variable introduced in one arm only, a conditional write to an undefined variable, ...) is an exit path too
+
+MISUSE = ["new-var-if-not-else", "new-var-no-else", "spurious-var-in-else", "new-var-in-while", "new-var-in-for",
+          "new-var-if-not-elif"]
+OUTERS = ["none", "guarded-b1", "guarded-b0", "if-b1", "if-b0", "while-b1"]
+
+
+def run_misuse(kind, outer, cval, p):
+    """-> list of (sig, text).  The block is executed inside `outer`; the library must raise, and right after
+    the raise (caught inside the outer region) guard / ignore flag / ONE must be the outer region's again."""
+    H.R.p = p
+    H.reset(bitlength=8)
+    rt, B, Br = H.rt, H.boolean, H.branching
+    out = []
+    ctx = Br.BranchingValues()
+    ctx.x = rt.PrivVal(3)
+
+    def block():
+        c = B.PrivValBool(cval)
+        before = H.triple()
+        raised = None
+        try:
+            if kind == "new-var-if-not-else":
+                Br._if(c, ctx=ctx)
+                ctx.t = rt.PrivVal(5)
+                Br._else(ctx=ctx)
+                ctx.x = ctx.x + 1
+                Br._endif(ctx=ctx)
+            elif kind == "new-var-if-not-elif":
+                Br._if(c, ctx=ctx)
+                ctx.t = rt.PrivVal(5)
+                Br._elif(lambda: B.PrivValBool(1), ctx=ctx)
+                ctx.x = ctx.x + 1
+                Br._endif(ctx=ctx)
+            elif kind == "new-var-no-else":
+                Br._if(c, ctx=ctx)
+                ctx.t = rt.PrivVal(5)
+                Br._endif(ctx=ctx)
+            elif kind == "spurious-var-in-else":
+                Br._if(c, ctx=ctx)
+                ctx.x = ctx.x + 1
+                Br._else(ctx=ctx)
+                ctx.u = rt.PrivVal(6)
+                Br._endif(ctx=ctx)
+            elif kind == "new-var-in-while":
+                Br._while(c, ctx=ctx)
+                ctx.t = rt.PrivVal(5)
+                Br._endwhile(ctx=ctx)
+            elif kind == "new-var-in-for":
+                for _i in Br._range(rt.PrivVal(cval), max=1, ctx=ctx):
+                    ctx.t = rt.PrivVal(5)
+                Br._endfor(ctx=ctx)
+        except RuntimeError as ex:
+            raised = ex
+        now = H.triple()
+        sig = {"klass": "state-not-restored-after-block-error", "misuse": kind, "outer": outer}
+        if raised is None:
+            out.append((dict(sig, klass="block-error-not-raised"), "the block completed without the library's error"))
+        elif any(a is not b for a, b in zip(now, before)):
+            out.append((sig, "after the library raised %r the guard / ignore flag / ONE are not those in force before the block "
+                        "(guard %r, ignore %r, ONE safe %r)" % (str(raised)[:50], rt.guard, rt._ignore_errors, rt.LinComb.ONE is rt.LinComb.ONE_SAFE)))
+
+    try:
+        if outer == "none":
+            block()
+        elif outer.startswith("guarded"):
+            rt.guarded(B.PrivValBool(int(outer[-1])))(block)()
+        elif outer.startswith("if"):
+            octx = Br.BranchingValues()
+            Br._if(B.PrivValBool(int(outer[-1])), ctx=octx)
+            block()
+            Br._endif(ctx=octx)
+        else:
+            octx = Br.BranchingValues()
+            Br._while(B.PrivValBool(1), ctx=octx)
+            block()
+            Br._endwhile(ctx=octx)
+    except Exception as ex:  # noqa: BLE001
+        out.append(({"klass": "harness-misuse-outer-raised", "misuse": kind, "outer": outer}, "%s: %s" % (type(ex).__name__, ex)))
+    if not H.triple_clean():
+        out.append(({"klass": "state-not-clean-outside-regions", "misuse": kind, "outer": outer},
+                    "after the outer region ended the guard state is not clean"))
+    ctx.stack.clear()
+    return out
+
+
 def _init():
     H.bind(REC.BN128)
 
@@ -466,6 +554,16 @@ def run(ctx):
         states |= r["states"]
         for v in r["viols"].values():
             ctx.violations.append({"sig": v["sig"], "case": v["case"], "what": v["what"] + " (x%d)" % v["count"]})
+    _init()
+    nmis = 0
+    for kind in MISUSE:
+        for outer in OUTERS:
+            for cval in (0, 1):
+                nmis += 1
+                for sig, text in run_misuse(kind, outer, cval, p):
+                    ctx.violation(dict(sig, cond=cval), {"misuse": [kind, outer, cval], "p": p},
+                                  "block error %s (condition %d) inside %s: %s" % (kind, cval, outer, text))
+    agg["block_error_histories"] = nmis
     from .. import e1
     e1.dedupe_violations(ctx)
     ctx.cov.update(agg)
@@ -479,13 +577,19 @@ def run(ctx):
                        "nesting <= 3; every history x 8 realisations (guarded, lazy then/else branch, _if, _else, _elif, _while, _range), plus three realisations in which equal conditions are ONE shared object; after every event the real (guard, ignore_errors, "
                        "LinComb.ONE, constants) is compared with the reference stack model (product of the enclosing "
                        "secret conditions); states = distinct (condition stack, guard-present, ignore flag, ONE-is-safe) "
-                       "configurations reached; transitions = events executed")
+                       "configurations reached; transitions = events executed; plus 6 kinds of error raised by the block API's own "
+                       "bookkeeping at the end of a block x 6 enclosing contexts x condition 0/1: right after the raise the "
+                       "state must be the enclosing region's")
     ctx.sample({"history": tree_str(all_trees[0]), "realisations": REALS + ["else"]})
     ctx.sample({"history": "b1{op s0{raise} op} op", "meaning": "exception propagates out of a false inner and a true outer region"})
 
 
 def replay(case):
     H.bind(case["p"])
+    if "misuse" in case:
+        kind, outer, cval = case["misuse"]
+        vs = run_misuse(kind, outer, cval, case["p"])
+        return {"block_error": kind, "outer": outer, "condition": cval, "violations": [{"sig": s, "what": w} for s, w in vs]}
 
     def tup(x):
         return tuple(tup(y) for y in x) if isinstance(x, list) else x
